@@ -1,8 +1,10 @@
 #!/bin/sh
-# Build the framework from files on disk only (offline).
+# Build the framework from files on disk only (offline): regenerate the Lean files derived from /repo, build the
+# model, the native driver and every property module (so that a check only re-checks what a change touches).
 set -e
 cd "$(dirname "$0")"
 mkdir -p lean/H2/Gen evidence work
 /venv/bin/python tools/gen_tables.py lean/H2/Gen/Tables.lean work/gen_summary.json
 /venv/bin/python tools/py2lean.py lean/H2/Gen/Windows.lean
-cd lean && lake build H2 h2drv
+PROPS=$(/venv/bin/python -c "import json; print(' '.join(sorted(v['module'] for v in json.load(open('theorems.json')).values())))")
+cd lean && lake build H2 h2drv $PROPS
